@@ -13,6 +13,8 @@ sys.path.insert(0, repo)
 
 
 def main():
+    import logging
+    logging.disable(logging.CRITICAL)
     req = json.load(sys.stdin)
     prop = req["property"]
     try:
